@@ -4,6 +4,7 @@ import os
 import re
 
 from ..core.engine import Res
+from ..core.facts import AnchorMissing
 from ..core.rules import exhaustive_loop
 from ..core.rules import (who_calls, who_writes, must_pass, order, wire, guard,
                           call_matches)
@@ -34,8 +35,58 @@ def _load(name):
     return json.load(open(p)) if os.path.exists(p) else {}
 
 
+def half_open_range(fq, bounds):
+    """Every comparison of an element with a bound of the subtree range in F (and its closures) treats the range as half open,
+    [left, right): elements are skipped while `elem < left` and taken while `elem < right`. Whatever the search looks like (two
+    scans, take_while, partition_point), an off-by-one shows as `<=` / `>` against one of the bounds."""
+    def f(P):
+        from ..core.guards import GuardExtractor, CMP
+        from ..core.facts import callee_path
+        fn = P.fn(fq)
+        r = Res()
+        seen = 0
+        for g in [fn] + [P.fns[k] for k in P.closures_of(fn['key'])]:
+            body = P.body(g)
+            gx = GuardExtractor(body, resolve_upvars=True)
+            rels = []
+            for bi, b in enumerate(body.B):
+                if b.get('cu'):
+                    continue
+                for st in b['st']:
+                    rv = st['rv']
+                    if rv['k'] == 'bin' and rv['op'] in CMP:
+                        rels.append((CMP[rv['op']], gx.o.op_str(rv['a']), gx.o.op_str(rv['b']), st['ln']))
+                t = b['term']
+                if t['k'] == 'call':
+                    m = re.search(r'PartialOrd::(lt|le|gt|ge)$', callee_path(t))
+                    if m and len(t['args']) == 2:
+                        rels.append(({'lt': '<', 'le': '<=', 'gt': '>', 'ge': '>='}[m.group(1)], gx.o.op_str(t['args'][0]), gx.o.op_str(t['args'][1]), b['ln']))
+            for rel, a, c, ln in rels:
+                for bname, brx in bounds.items():
+                    if re.search(brx, c) and not re.search(brx, a):
+                        rr = rel
+                    elif re.search(brx, a) and not re.search(brx, c):
+                        rr = {'<': '>', '>': '<', '<=': '>=', '>=': '<='}.get(rel)
+                    else:
+                        continue
+                    if rr is None or rr in ('==', '!='):
+                        continue
+                    seen += 1
+                    r.site('%s @%s elem %s %s' % (g['qual'], ln, rr, bname))
+                    if rr not in ('<', '>='):
+                        r.bad('closed-bound:' + bname, 'in `%s` an element is compared with the %s bound of the subtree range as `elem %s %s`: the range of '
+                              'leaves below a node is half open [left, right), the test has to be `elem < %s` (or its negation)' % (g['qual'], bname, rr, bname, bname),
+                              where=[ln])
+        if not seen:
+            raise AnchorMissing('`%s` no longer compares elements with the bounds of the subtree range' % fq)
+        return r
+    return f
+
+
 def run(ctx):
     P = ctx.P
+    ctx.check('RANGE', 'unmerged leaves below a node are selected from the half-open leaf range of its subtree',
+              half_open_range('TreeKemPublic::unmerged_in_subtree', {'left': r'math::subtree\(.*\)\.left$|^left$', 'right': r'math::subtree\(.*\)\.right$|^right$'}), floor=2)
     ctx.check('EXHAUSTIVE-LOOP', 'unmerged bookkeeping covers the whole direct path', lambda P_: exhaustive_loop(P_, 'TreeKemPublic::update_unmerged'), floor=1)
     ctx.check('EXHAUSTIVE-LOOP', 'every node of the update path is installed', lambda P_: exhaustive_loop(P_, 'TreeKemPublic::apply_update_path'), floor=1)
     ctx.check('EXHAUSTIVE-LOOP', 'hash refresh visits every queued node', lambda P_: exhaustive_loop(P_, 'tree_hash::tree_hash'), floor=1)
